@@ -254,6 +254,10 @@ def gen_case(seed):
                         sch['far'] = _leaf_schema(pool[tgt])
                         t['far'] = ['..'] * len(Q) + list(tgt)
                         decl.append(((port, 'far'), tgt))
+                    if Rng(derive(seed, 'ownsplit', name, port)).chance(40):
+                        # the same wiring written without `_path`: a dictionary that lists
+                        # some variables (or none) and leaves the others on their default routes
+                        del t['_path']
                     topo[port] = t
                 else:
                     topo[port] = []
